@@ -28,6 +28,9 @@ pub struct ExpCase {
     pub io: IoPlan,
     #[serde(default)]
     pub stale_folder: bool,
+    /// the setup function inserts a generator of its own
+    #[serde(default)]
+    pub user_rng: Option<u64>,
 }
 
 #[derive(Clone, Debug, PartialEq, Default)]
@@ -75,9 +78,13 @@ impl Observer<RealP> for ExitObs {
     }
 }
 
-fn setup_fn(map: DigestMap, log: bool) -> impl Fn(&mut State<RealP>) -> ExecResult<()> + Send + Sync {
+fn setup_fn(map: DigestMap, log: bool, user_rng: Option<u64>) -> impl Fn(&mut State<RealP>) -> ExecResult<()> + Send + Sync {
     move |state: &mut State<RealP>| {
         state.insert_evaluator(Sequential::<RealP>::new());
+        if let Some(seed) = user_rng {
+            // the user supplies a generator of their own (another type, another seed)
+            state.insert(Random::with_rng::<crate::rng::SimRng>(seed));
+        }
         if log {
             state.configure_log(|config| {
                 config.with_common(mahf::conditions::EveryN::iterations(2));
@@ -169,7 +176,7 @@ impl World for Experiment {
             }
         }
         let stale_folder = fg.chance(0.3);
-        ExpCase { template, problems, runs: 1 + g.below(6) as u64, sched, log: self.prop == "C15" || g.chance(0.7), io, stale_folder }
+        ExpCase { template, problems, runs: 1 + g.below(6) as u64, sched, log: self.prop == "C15" || g.chance(0.7), io, stale_folder, user_rng: if g.chance(0.25) { Some(g.u64()) } else { None } }
     }
 
     fn execute(&self, c: &ExpCase) -> Outcome<ExpCase> {
@@ -189,7 +196,7 @@ impl World for Experiment {
         for spec in &c.problems {
             for run in 0..c.runs {
                 let problem = RealP::new(spec.clone());
-                let setup = setup_fn(ref_map.clone(), c.log);
+                let setup = setup_fn(ref_map.clone(), c.log, c.user_rng);
                 // a configuration object of its own: the reference must not depend on what an
                 // earlier run left in a (supposedly immutable) component
                 let config = match build(&c.template) {
@@ -253,7 +260,7 @@ impl World for Experiment {
             let map: DigestMap = Arc::new(Mutex::new(BTreeMap::new()));
             let mut disk = SimDisk::new(case.io.clone());
             disk.yield_point = Some(shuttle_yield);
-            let setup = setup_fn(map.clone(), case.log);
+            let setup = setup_fn(map.clone(), case.log, case.user_rng);
             let result = with_disk(&disk, || guarded(|| par_experiment(&config, setup, &problems, case.runs, &folder2, case.log)));
             let result = match result {
                 Ok(Ok(())) => Ok(()),
